@@ -184,6 +184,11 @@ func init() {
 				}
 				items = append(items, it)
 			}
+			// value-changing PostTransforms next to record-level tests that fail (every struct-level test failing by default)
+			for _, it := range coreItemsFiltered(tier, c13Scenario, func(a *Alpha) { a.Full = true; a.MutPost = true; a.StructFails = true }, []int{1}, 1, func(ns NamedSkel) bool { return hasStruct(ns.S) }) {
+				it.Name = "with-posts-and-failing-record-tests/" + it.Name
+				items = append(items, it)
+			}
 			items = append(items, Item{Name: "custom-schemas", MaxDevs: -1, Run: c13CustomScenario})
 			// tagged destinations: the record skeleton with uniform zog tags (plain, and with a comma in the value)
 			for _, cfg := range []int{1, 6} {
